@@ -9,6 +9,7 @@ from verif_sa.core import FileObj
 from verif_sa.pe import P, Normalizer, decision_list
 from verif_sa.siblings import _fold_label_comprehension
 from .fam_d import affine
+from .common import eq_const, guard_eq
 
 
 # ---- E1: LAMMPS data writer <-> reader -----------------------------------------------------------
@@ -49,11 +50,21 @@ def E1_lmpdat_writer_reader(repo, clause):
             hname = n.targets[0].id
     if handled is None:
         raise AnalysisError("E1: list of handled sections not found in load_lmpdat")
+    # the section variable: assigned from the line inside `if line in <handled list>`
+    secvar = None
+    for n in r.own_nodes():
+        if isinstance(n, ast.If) and isinstance(n.test, ast.Compare) and isinstance(n.test.ops[0], ast.In) and isinstance(n.test.comparators[0], ast.Name) \
+                and n.test.comparators[0].id == hname:
+            for s2 in n.body:
+                if isinstance(s2, ast.Assign) and isinstance(s2.targets[0], ast.Name) and ast.unparse(s2.value) == ast.unparse(n.test.left):
+                    secvar = s2.targets[0].id
+    if secvar is None:
+        raise AnalysisError("E1: current-section variable not found in load_lmpdat")
     branches = set()
     for n in r.own_nodes():
-        if isinstance(n, ast.Compare) and isinstance(n.ops[0], ast.Eq) and isinstance(n.comparators[0], ast.Constant) \
-                and isinstance(n.comparators[0].value, str) and isinstance(n.left, ast.Name) and "section" in n.left.id:
-            branches.add(n.comparators[0].value)
+        e = eq_const(n) if isinstance(n, ast.Compare) else None
+        if e is not None and e[2] and isinstance(e[1], str) and isinstance(e[0], ast.Name) and e[0].id == secvar:
+            branches.add(e[1])
     floor("E1", "sections written", len(written), 11)
     for name, c in written:
         ok = name in handled and name in branches
@@ -68,8 +79,7 @@ def E1_lmpdat_writer_reader(repo, clause):
         for c, s, a in writes:
             if s is None or a is None or not isinstance(a, ast.Tuple):
                 continue
-            gs = norm_guards(w, c)
-            if any(pol and isinstance(t, ast.Compare) and const_value(t.comparators[0]) == style for t, pol, k in gs):
+            if guard_eq(w, c, style):
                 lp = [x for x in w.ancestors(c) if isinstance(x, ast.For)]
                 return c, a.elts, lp[0] if lp else None
         return None, None, None
@@ -78,8 +88,7 @@ def E1_lmpdat_writer_reader(repo, clause):
         res = {}
         for n in r.own_nodes():
             if isinstance(n, ast.Assign) and isinstance(n.targets[0], ast.Name):
-                gs = norm_guards(r, n)
-                if not any(pol and isinstance(t, ast.Compare) and const_value(t.comparators[0]) == style for t, pol, k in gs):
+                if not guard_eq(r, n, style):
                     continue
                 for s in ast.walk(n.value):
                     if isinstance(s, ast.Subscript) and isinstance(s.slice, ast.Tuple) and len(s.slice.elts) == 2 and isinstance(s.slice.elts[0], ast.Slice):
@@ -238,8 +247,7 @@ def E1_lmpdat_writer_reader(repo, clause):
     ok = len(mw) == 1 and affine(mw[0][1].elts[0]).get("", 0) == 1 and isinstance(mw[0][1].elts[1], ast.Name)
     obs.append(Ob("E1", clause, w, mw[0][0] if mw else w.node, ok, "Masses: 1-based type id, mass, label comment over enumerate(self.atom_type_masses)", slot="masses:writer"))
     mr = [n for n in r.own_nodes() if isinstance(n, ast.Call) and isinstance(n.func, ast.Attribute) and n.func.attr == "append" and n.args
-          and isinstance(n.args[0], ast.Subscript) and const_value(n.args[0].slice) == 1 and any(
-              pol and isinstance(t, ast.Compare) and const_value(t.comparators[0]) == "Masses" for t, pol, k in norm_guards(r, n))]
+          and isinstance(n.args[0], ast.Subscript) and const_value(n.args[0].slice) == 1 and guard_eq(r, n, "Masses")]
     obs.append(Ob("E1", clause, r, mr[0] if mr else r.node, len(mr) == 1, "Masses: reader takes column 1 as the mass", slot="masses:reader"))
     # --- box and tilt
     tilt_w = None
@@ -272,11 +280,17 @@ def E1_lmpdat_writer_reader(repo, clause):
         detail += "; upper triangle zero=%s; diagonal=%s" % (upper_zero, diag_names)
     obs.append(Ob("E1", clause, w, tilt_c if tilt_w else w.node, ok, detail, slot="tilt"))
     # lo/hi: writer zip([0,0,0], np.diag(cell)); reader hi - lo
-    lohi = [n for n in r.own_nodes() if isinstance(n, ast.Assign) and isinstance(n.value, ast.BinOp) and isinstance(n.value.op, ast.Sub)
-            and "tup[1]" in ast.unparse(n.value.left) and "tup[0]" in ast.unparse(n.value.right)]
+    def _float_sub(e):
+        return e.args[0] if isinstance(e, ast.Call) and call_name(e) == "float" and e.args and isinstance(e.args[0], ast.Subscript) else None
+    lohi = []
+    for n in r.own_nodes():
+        if isinstance(n, ast.Assign) and isinstance(n.value, ast.BinOp) and isinstance(n.value.op, ast.Sub):
+            a, b = _float_sub(n.value.left), _float_sub(n.value.right)
+            if a is not None and b is not None and ast.unparse(a.value) == ast.unparse(b.value) and const_value(a.slice) == 1 and const_value(b.slice) == 0:
+                lohi.append(n)
     obs.append(Ob("E1", clause, r, lohi[0] if lohi else r.node, len(lohi) == 3, "box lengths are read as hi - lo on the three axes (%d found)" % len(lohi), slot="box:reader"))
     zw = [n for n in w.own_nodes() if isinstance(n, ast.Assign) and isinstance(n.value, ast.Call) and call_name(n.value) == "zip" and len(n.value.args) == 2]
-    ok = len(zw) == 1 and ast.unparse(zw[0].value.args[0]) in ("[0, 0, 0]", "(0, 0, 0)") and "np.diag(self.cell)" in ast.unparse(zw[0].value.args[1])
+    ok = len(zw) == 1 and ast.unparse(expand(w, zw[0].value.args[0])) in ("[0, 0, 0]", "(0, 0, 0)") and "np.diag(self.cell)" in ast.unparse(expand(w, zw[0].value.args[1]))
     obs.append(Ob("E1", clause, w, zw[0] if zw else w.node, ok, "box is written as lo=0, hi=cell diagonal per axis", slot="box:writer"))
     # count lines
     for c, s, a in writes:
@@ -308,8 +322,7 @@ def E_dispatch(repo, clause):
             if len(calls) == 1:
                 c = calls[0]
                 gs = norm_guards(fn, c)
-                eq = any(pol and isinstance(t, ast.Compare) and isinstance(t.ops[0], ast.Eq) and const_value(t.comparators[0]) == ft
-                         and isinstance(t.left, ast.Name) for t, pol, k in gs)
+                eq = guard_eq(fn, c, ft)
                 withs = [a for a in fn.ancestors(c) if isinstance(a, ast.With)]
                 mode_ok = True
                 src_ok = True
@@ -385,12 +398,25 @@ def E2_cif_tags(repo, clause):
            [s for s in r.own_nodes() if isinstance(s, ast.Assign) and isinstance(s.value, ast.BinOp) and isinstance(s.value.op, ast.Mod) and const_value(s.value.right) == 1]
     dots = [s for s in r.own_nodes() if isinstance(s, ast.Assign) and isinstance(s.value, ast.Call) and call_name(s.value) in ("dot", "matmul")]
     ok = len(mods) == 1 and len(dots) == 1 and r.cfg.dominates(mods[0], dots[0]) and not r.cfg.reaches(dots[0], mods[0])
-    g_ok = ok and all(any(pol and isinstance(t, ast.Name) and "fract" in t.id for t, pol, k in norm_guards(r, s)) for s in (mods[0], dots[0]))
+    def _fract_flag_guard(s):
+        for t, pol, k in norm_guards(r, s):
+            if pol and isinstance(t, ast.Name):
+                trues = [d for d in r.own_nodes() if isinstance(d, ast.Assign) and isinstance(d.targets[0], ast.Name) and d.targets[0].id == t.id
+                         and const_value(d.value) is True]
+                for d in trues:
+                    for t2, pol2, k2 in norm_guards(r, d):
+                        if pol2 and "fract" in ast.unparse(expand(r, t2)).lower():
+                            return True
+        return False
+    g_ok = ok and all(_fract_flag_guard(s) for s in (mods[0], dots[0]))
     obs.append(Ob("E2", clause, r, mods[0] if mods else r.node, ok and g_ok,
                   "fractional coordinates are wrapped modulo 1 before the multiplication with the cell, and only for fractional input", slot="wrap-before-product"))
     if dots:
         c = dots[0].value
-        ok = isinstance(c.func, ast.Attribute) and ast.unparse(c.func.value) == "positions" and c.args and ast.unparse(c.args[0]) == "cell"
+        wrapped = mods[0].target.id if mods and isinstance(mods[0], ast.AugAssign) and isinstance(mods[0].target, ast.Name) else None
+        cellv = expand(r, c.args[0]) if c.args else None
+        ok = isinstance(c.func, ast.Attribute) and isinstance(c.func.value, ast.Name) and c.func.value.id == wrapped and \
+            isinstance(cellv, ast.Call) and call_name(cellv) == "cellpar_to_cell"
         obs.append(Ob("E2", clause, r, dots[0], ok, "Cartesian = fractional (rows) . cell (rows = lattice vectors)", slot="frac-to-cart"))
     # writer: fractional = positions . inv(cell)
     inv = [s for s in w.own_nodes() if isinstance(s, ast.Assign) and isinstance(s.value, ast.Call) and call_name(s.value) == "inv"]
@@ -497,7 +523,12 @@ def E4_cml(repo, clause):
     # unpack order and positions = [x,y,z].T
     un = [n for n in fn.own_nodes() if isinstance(n, ast.Assign) and isinstance(n.targets[0], ast.Tuple) and len(n.targets[0].elts) == 5]
     names = [e.id for e in un[0].targets[0].elts] if un else []
-    pos = [n for n in fn.own_nodes() if isinstance(n, ast.Assign) and isinstance(n.targets[0], ast.Name) and n.targets[0].id == "positions"]
+    ct0 = [c for c in calls_in(fn) if isinstance(c.func, ast.Name) and c.func.id == "cls"]
+    def _kwname(k):
+        v = kwarg(ct0[0], k) if ct0 else None
+        return v.id if isinstance(v, ast.Name) else None
+    posname, bondsname = _kwname("positions"), _kwname("bonds")
+    pos = [n for n in fn.own_nodes() if isinstance(n, ast.Assign) and isinstance(n.targets[0], ast.Name) and n.targets[0].id == posname]
     ok = bool(un) and bool(pos) and re.sub(r"\s", "", ast.unparse(pos[0].value)) == "np.array([%s,%s,%s]).T" % tuple(names[2:5])
     obs.append(Ob("E4", clause, fn, pos[0] if pos else fn.node, ok, "positions are the (x, y, z) columns in this order", slot="xyz-order"))
     # id map enumerates the same id list
@@ -511,7 +542,7 @@ def E4_cml(repo, clause):
     obs.append(Ob("E4", clause, fn, dm[0] if dm else fn.node, ok, "id -> index map enumerates the id list in document order (key = id, value = position)", slot="id-map"))
     # bonds resolved through the map
     mname = dm[0].targets[0].id if dm else None
-    bl = [n for n in fn.own_nodes() if isinstance(n, ast.Assign) and isinstance(n.targets[0], ast.Name) and n.targets[0].id == "bonds"]
+    bl = [n for n in fn.own_nodes() if isinstance(n, ast.Assign) and isinstance(n.targets[0], ast.Name) and n.targets[0].id == bondsname]
     ok = False
     if bl and mname:
         subs = [s for s in ast.walk(bl[0].value) if isinstance(s, ast.Subscript) and isinstance(s.value, ast.Name) and s.value.id == mname]
@@ -523,13 +554,13 @@ def E4_cml(repo, clause):
     # elements and bond list reach the constructor
     ct = [c for c in calls_in(fn) if isinstance(c.func, ast.Name) and c.func.id == "cls"]
     ok = len(ct) == 1 and all(kwarg(ct[0], k) is not None and isinstance(kwarg(ct[0], k), ast.Name) and kwarg(ct[0], k).id == v
-                              for k, v in (("elements", names[1] if names else ""), ("positions", "positions"), ("bonds", "bonds")))
+                              for k, v in (("elements", names[1] if names else ""),)) and posname is not None and bondsname is not None
     obs.append(Ob("E4", clause, fn, ct[0] if ct else fn.node, ok, "elements, positions and bonds reach the constructor under their own names", slot="ctor"))
     # path vs file: Atoms.load passes fd or path to the same routine
     ld = repo.fn("Atoms.load")
     c = [x for x in calls_in(ld) if isinstance(x.func, ast.Attribute) and x.func.attr == "load_cml"]
     ok = len(c) == 1 and c[0].args and isinstance(c[0].args[0], ast.BoolOp) and isinstance(c[0].args[0].op, ast.Or) \
-        and [getattr(v, "id", None) for v in c[0].args[0].values] == ["fd", "path"]
+        and len(c[0].args[0].values) == 2 and all(isinstance(v, ast.Name) and v.id not in ld.params for v in c[0].args[0].values)
     obs.append(Ob("E4", clause, ld, c[0] if c else ld.node, ok, "path and open file are handed to the same loader (fd or path)", slot="path-or-file"))
     return obs
 
@@ -585,10 +616,9 @@ def E_bond_cutoff(repo, clause):
     obs.append(Ob("E7", clause, fn, i, aff_ok and same_arr,
                   "inner loop runs over the suffix [%s:] of the same array and the second index is rebuilt as inner index + %s (each unordered pair once, i<j)"
                   % (ast.unparse(lower) if lower is not None else "?", ast.unparse(lower) if lower is not None else "?"), slot="pair-once"))
-    args_ok = [ast.unparse(a) for a in mcall.args] == ["elements[%s]" % idx1, "elements[%s]" % idx2] or \
-        [ast.unparse(a) for a in mcall.args] == ["elements[%s]" % idx2, "elements[%s]" % idx1]
-    el = [n for n in fn.own_nodes() if isinstance(n, ast.Assign) and isinstance(n.targets[0], ast.Name) and n.targets[0].id == "elements"]
-    args_ok = args_ok and len(el) == 1 and ast.unparse(el[0].value) == "%s.elements" % fn.params[0]
+    args_ok = len(mcall.args) == 2 and all(isinstance(a, ast.Subscript) and isinstance(a.slice, ast.Name) for a in mcall.args) and \
+        sorted(a.slice.id for a in mcall.args) == sorted([idx1, idx2 or "?"]) and \
+        all(ast.unparse(expand(fn, a.value)) == "%s.elements" % fn.params[0] for a in mcall.args)
     obs.append(Ob("E7", clause, fn, mcall, args_ok, "cutoff is taken for the elements of exactly these two atoms", slot="own-elements"))
     app = [c2 for c2 in calls_in(fn) if isinstance(c2.func, ast.Attribute) and c2.func.attr == "append"]
     ok = len(app) == 1 and ast.unparse(app[0].args[0]) in ("[%s, %s]" % (idx1, idx2), "(%s, %s)" % (idx1, idx2))
@@ -826,7 +856,11 @@ def E_override_both_directions(repo, clause):
     rev += [c for c in cd if ast.unparse(c.args[0]) == topo and re.sub(r"\s", "", ast.unparse(c.args[1])) in ("%s[:,::-1]" % new,)]
     obs.append(Ob("E11", clause, fe, fwd[0] if fwd else fe.node, len(fwd) == 1, "existing terms on the same atoms in the same order are found", slot="forward"))
     obs.append(Ob("E11", clause, fe, rev[0] if rev else fe.node, len(rev) == 1, "existing terms on the same atoms in reversed order are found (new tuples flipped along the atom axis)", slot="reverse"))
-    zero = all(isinstance(fe.parents.get(c), ast.Compare) and const_value(fe.parents.get(c).comparators[0]) == 0 and isinstance(fe.parents.get(c).ops[0], ast.Eq) for c in cd)
+    def _is_zero_test(c):
+        par = fe.parents.get(c)
+        e = eq_const(par) if isinstance(par, ast.Compare) else None
+        return e is not None and e[0] is c and e[1] == 0 and e[2]
+    zero = all(_is_zero_test(c) for c in cd)
     metric = all(const_value(c.args[2]) in ("cityblock", "euclidean", "sqeuclidean", "chebyshev") for c in cd if len(c.args) > 2)
     obs.append(Ob("E11", clause, fe, cd[0] if cd else fe.node, zero and metric and len(cd) == 2, "identity of tuples is distance == 0 under a true metric", slot="zero-distance"))
     rows = [n for n in fe.own_nodes() if isinstance(n, ast.Subscript) and isinstance(n.value, ast.Call) and call_name(n.value) == "nonzero"]
